@@ -282,7 +282,8 @@ class DDPG(RLAlgorithm):
         """Shares the encoder parameters between the actor and critic. Registered as a mutation hook
         when share_encoders=True."""
         if all(isinstance(net, EvolvableNetwork) for net in [self.actor, self.critic]):
-            share_encoder_parameters(self.actor, self.critic, self.critic_target)
+            share_encoder_parameters(self.actor, self.critic)
+            share_encoder_parameters(self.actor_target, self.critic_target)
         else:
             warnings.warn(
                 "Encoder sharing is disabled as actor or critic is not an EvolvableNetwork."
